@@ -21,6 +21,15 @@
 //!   implementations (`SpyA*` over the std atomics) that log the ordering they are called with:
 //!   case: mode ep size store_order load_order     obs: st seen_store seen_load nstores nloads
 //!   ep 0 VolatileSlice, 1 region, 2 guest memory; order 0 Relaxed 1 Release 2 Acquire 3 AcqRel 4 SeqCst.
+//! Suite C06ordstd - the same through the crate's OWN AtomicInteger impls for the std atomics (src/atomic_integer.rs), the
+//!   ones every real caller gets: std itself refuses (panics on) an Acquire / AcqRel store and a Release / AcqRel load, so
+//!   such a request must end in that panic (ordering forwarded) and every other one must complete:
+//!   case: mode ep ty kind order     obs: st     (kind 0 store 1 load; ty 0..9 = u8 u16 u32 u64 i8 i16 i32 i64 usize isize;
+//!   st 0 done and the value round-trips, 1 Err, 2 panicked, 3 wrong value)
+//! Suite C06sb - store-buffering litmus through Bytes::store / Bytes::load with SeqCst everywhere: thread 0 does x = 1; r0 = y,
+//!   thread 1 does y = 1; r1 = x; r0 = r1 = 0 is impossible under sequential consistency (a SeqCst store that was weakened to
+//!   Release lets the store buffer reorder them on x86).  Black-box cross-check with a bounded number of rounds:
+//!   case: mode level size rounds    obs: forbidden(0/1) ran(1)
 //! Suite C06tear (thorough tier only) - two-thread writer/reader tearing detector, black box.
 use crate::tok::{n, us};
 use crate::{util, Rng, Suite, Tier, Tok};
@@ -39,6 +48,8 @@ pub const SUITES: &[Suite] = &[
     Suite { name: "C06atomic", gen: gen_atomic, exec: exec_atomic },
     Suite { name: "C06tear", gen: gen_tear, exec: exec_tear },
     Suite { name: "C06order", gen: gen_order, exec: exec_order },
+    Suite { name: "C06ordstd", gen: gen_ordstd, exec: exec_ordstd },
+    Suite { name: "C06sb", gen: gen_sb, exec: exec_sb },
 ];
 
 const PAGE: usize = 4096;
@@ -877,6 +888,221 @@ fn gen_order(_rng: &mut Rng, _tier: Tier, emit: &mut dyn FnMut(Vec<Tok>)) {
                     emit(vec![n(mode), n(ep), us(size), n(os), n(ol)]);
                 }
             }
+        }
+    }
+}
+
+
+// ------------------------------------------------------------------ C06ordstd: the crate's own impls over the std atomics
+fn ordstd_one<A: Copy, C: Bytes<A>>(c: &C, addr: A, ty: u64, kind: u64, order: Ordering) -> u64 {
+    macro_rules! go {
+        ($t:ty) => {{
+            let val = 0x5a5a_a5a5_1234_8765u64 as $t;
+            if kind == 0 {
+                // the store under test, read back with an ordering every load accepts
+                match c.store::<$t>(val, addr, order) {
+                    Err(_) => 1,
+                    Ok(()) => match c.load::<$t>(addr, Ordering::SeqCst) {
+                        Ok(b) if b == val => 0,
+                        Ok(_) => 3,
+                        Err(_) => 1,
+                    },
+                }
+            } else {
+                match c.store::<$t>(val, addr, Ordering::SeqCst) {
+                    Err(_) => 1,
+                    Ok(()) => match c.load::<$t>(addr, order) {
+                        Ok(b) if b == val => 0,
+                        Ok(_) => 3,
+                        Err(_) => 1,
+                    },
+                }
+            }
+        }};
+    }
+    match ty {
+        0 => go!(u8),
+        1 => go!(u16),
+        2 => go!(u32),
+        3 => go!(u64),
+        4 => go!(i8),
+        5 => go!(i16),
+        6 => go!(i32),
+        7 => go!(i64),
+        8 => go!(usize),
+        _ => go!(isize),
+    }
+}
+
+fn exec_ordstd(case: &[Tok]) -> Vec<Tok> {
+    if case.len() != 5 {
+        return bad();
+    }
+    let (ep, ty, kind, order) = (case[1].u(), case[2].u(), case[3].u(), case[4].u());
+    if ep > 2 || ty > 9 || kind > 1 || order > 4 {
+        return bad();
+    }
+    WORLD.with(|w| {
+        let r = util::catch(|| match ep {
+            0 => {
+                let vs = unsafe { VolatileSlice::new(w.arena.add(64), 64) };
+                ordstd_one(&vs, 8usize, ty, kind, ord_of(order))
+            }
+            1 => {
+                let region = w.gm.iter().next().unwrap();
+                ordstd_one(region, MemoryRegionAddress(PAGE as u64 + 16), ty, kind, ord_of(order))
+            }
+            _ => ordstd_one(&w.gm, GuestAddress(GUEST_BASE + 2 * PAGE as u64 + 24), ty, kind, ord_of(order)),
+        });
+        vec![n(r.unwrap_or(2))]
+    })
+}
+
+fn gen_ordstd(_rng: &mut Rng, _tier: Tier, emit: &mut dyn FnMut(Vec<Tok>)) {
+    let mode = crate::build_mode();
+    for ep in 0..=2u64 {
+        for ty in 0..10u64 {
+            for kind in 0..2u64 {
+                for order in 0..5u64 {
+                    emit(vec![n(mode), n(ep), n(ty), n(kind), n(order)]);
+                }
+            }
+        }
+    }
+}
+
+// ------------------------------------------------------------------ C06sb: store-buffering litmus (SeqCst)
+/// `st(which, v)` stores v to location x (which = 0) / y (1) with SeqCst through the library, `ld(which)` loads it
+fn sb_run(st: &(dyn Fn(u8, u64) + Sync), ld: &(dyn Fn(u8) -> u64 + Sync), rounds: u64) -> (bool, bool) {
+    use std::sync::atomic::AtomicU64;
+    // `arrive` is a symmetric spin barrier: both threads add 1 and wait for 2 * round; `res1` / `fin1` hand thread 1's
+    // load result back.  The budget bounds the wall time on a loaded machine.
+    let arrive = AtomicU64::new(0);
+    let res1 = AtomicU64::new(0);
+    let fin1 = AtomicU64::new(0);
+    let stop = AtomicBool::new(false);
+    let mut forbidden = false;
+    let mut ran = 0u64;
+    std::thread::scope(|s| {
+        s.spawn(|| {
+            let mut z = 0x9e37_79b9_7f4a_7c15u64;
+            for r in 1..=rounds {
+                arrive.fetch_add(1, Ordering::AcqRel);
+                while arrive.load(Ordering::Acquire) < 2 * r {
+                    if stop.load(Ordering::Relaxed) {
+                        return;
+                    }
+                    std::hint::spin_loop();
+                }
+                z ^= z << 13;
+                z ^= z >> 7;
+                z ^= z << 17;
+                for _ in 0..(z & 31) {
+                    std::hint::spin_loop();
+                }
+                st(1, 1);
+                let r1 = ld(0);
+                res1.store(r1, Ordering::Relaxed);
+                fin1.store(r, Ordering::Release);
+            }
+        });
+        let t0 = std::time::Instant::now();
+        let mut z = 0x2545_f491_4f6c_dd1du64;
+        for r in 1..=rounds {
+            // reset: thread 1 is parked at the barrier (it published fin1 = r - 1 before arriving)
+            st(0, 0);
+            st(1, 0);
+            arrive.fetch_add(1, Ordering::AcqRel);
+            while arrive.load(Ordering::Acquire) < 2 * r {
+                std::hint::spin_loop();
+            }
+            z ^= z << 13;
+            z ^= z >> 7;
+            z ^= z << 17;
+            for _ in 0..(z & 31) {
+                std::hint::spin_loop();
+            }
+            st(0, 1);
+            let r0 = ld(1);
+            while fin1.load(Ordering::Acquire) < r {
+                std::hint::spin_loop();
+            }
+            ran += 1;
+            if r0 == 0 && res1.load(Ordering::Relaxed) == 0 {
+                forbidden = true;
+            }
+            if r % 1024 == 0 && t0.elapsed().as_millis() > 4000 {
+                break;
+            }
+        }
+        stop.store(true, Ordering::Relaxed);
+        // let a parked thread 1 out of its barrier
+        arrive.fetch_add(1 << 40, Ordering::AcqRel);
+    });
+    (forbidden, ran > 0)
+}
+
+fn sb_store<A: Copy, C: Bytes<A>>(c: &C, a: A, size: usize, v: u64)
+where
+    C::E: std::fmt::Debug,
+{
+    match size {
+        1 => c.store::<u8>(v as u8, a, Ordering::SeqCst).unwrap(),
+        2 => c.store::<u16>(v as u16, a, Ordering::SeqCst).unwrap(),
+        4 => c.store::<u32>(v as u32, a, Ordering::SeqCst).unwrap(),
+        _ => c.store::<u64>(v, a, Ordering::SeqCst).unwrap(),
+    }
+}
+fn sb_load<A: Copy, C: Bytes<A>>(c: &C, a: A, size: usize) -> u64
+where
+    C::E: std::fmt::Debug,
+{
+    match size {
+        1 => c.load::<u8>(a, Ordering::SeqCst).unwrap() as u64,
+        2 => c.load::<u16>(a, Ordering::SeqCst).unwrap() as u64,
+        4 => c.load::<u32>(a, Ordering::SeqCst).unwrap() as u64,
+        _ => c.load::<u64>(a, Ordering::SeqCst).unwrap(),
+    }
+}
+
+fn exec_sb(case: &[Tok]) -> Vec<Tok> {
+    if case.len() != 4 {
+        return bad();
+    }
+    let (level, size, rounds) = (case[1].u(), case[2].u() as usize, case[3].u());
+    if level > 2 || ![1, 2, 4, 8].contains(&size) || rounds > 5_000_000 || rounds == 0 {
+        return bad();
+    }
+    // an own mapping (the threads must not share the thread-local world); x and y in different cache lines
+    let gm = GuestMemoryMmap::<()>::from_ranges(&[(GuestAddress(GUEST_BASE), GSIZE)]).unwrap();
+    let off = [2 * PAGE as u64 + 64, 3 * PAGE as u64 + 512];
+    let region = gm.iter().next().unwrap();
+    let (forb, ran) = match level {
+        0 => sb_run(
+            &|w, v| sb_store(&gm, GuestAddress(GUEST_BASE + off[w as usize]), size, v),
+            &|w| sb_load(&gm, GuestAddress(GUEST_BASE + off[w as usize]), size),
+            rounds,
+        ),
+        1 => sb_run(
+            &|w, v| sb_store(region, MemoryRegionAddress(off[w as usize]), size, v),
+            &|w| sb_load(region, MemoryRegionAddress(off[w as usize]), size),
+            rounds,
+        ),
+        _ => sb_run(
+            &|w, v| sb_store(&region.as_volatile_slice().unwrap(), off[w as usize] as usize, size, v),
+            &|w| sb_load(&region.as_volatile_slice().unwrap(), off[w as usize] as usize, size),
+            rounds,
+        ),
+    };
+    vec![Tok::b(forb), Tok::b(ran)]
+}
+
+fn gen_sb(_rng: &mut Rng, tier: Tier, emit: &mut dyn FnMut(Vec<Tok>)) {
+    let mode = crate::build_mode();
+    let rounds: u64 = if tier == Tier::Quick { 200_000 } else { 2_000_000 };
+    for level in 0..=2u64 {
+        for size in [1usize, 2, 4, 8] {
+            emit(vec![n(mode), n(level), us(size), n(rounds)]);
         }
     }
 }
